@@ -673,7 +673,7 @@ func (x *Exec) strLit(st *State, s string, t types.Type) Term {
 func (x *Exec) execAlloc(st *State, fr *Frame, a *ssa.Alloc) {
 	et := a.Type().(*types.Pointer).Elem()
 	if a.Heap {
-		if su, ok := et.Underlying().(*types.Struct); ok && !isTypeParam(et) {
+		if su, ok := under(et).(*types.Struct); ok && !isTypeParam(et) {
 			r := st.freshRef("new_" + structName(et))
 			r.Typ = a.Type()
 			st.storeStruct(r, su, et, st.zeroVal(et))
@@ -681,7 +681,7 @@ func (x *Exec) execAlloc(st *State, fr *Frame, a *ssa.Alloc) {
 			return
 		}
 	}
-	if at, ok := et.Underlying().(*types.Array); ok {
+	if at, ok := under(et).(*types.Array); ok {
 		r := st.freshRef("arr_" + a.Comment)
 		keys, sorts, typs := st.elemKeys(at.Elem())
 		for k := range keys {
@@ -695,6 +695,17 @@ func (x *Exec) execAlloc(st *State, fr *Frame, a *ssa.Alloc) {
 		}
 		fr.regs[a] = ArrPtr{Ref: r, Elem: at.Elem(), N: at.Len()}
 		return
+	}
+	if a.Heap {
+		if _, isSlice := under(et).(*types.Slice); !isSlice {
+			if _, ok := x.sortOf(et); ok {
+				r := st.freshRef("new_" + sanitize(a.Comment))
+				r.Typ = a.Type()
+				st.storeAt("box."+sanitize(et.String()), r, et, st.zeroVal(et), nil)
+				fr.regs[a] = r
+				return
+			}
+		}
 	}
 	x.cellCounter++
 	c := &Cell{id: x.cellCounter, name: a.Comment, typ: et}
@@ -712,7 +723,7 @@ func (x *Exec) load(st *State, addr Val, t types.Type) Val {
 			} else {
 				arr := v.(Term)
 				e := tSelect(arr, pe.idx)
-				if at, ok := arr.Typ.Underlying().(*types.Array); ok {
+				if at, ok := under(arr.Typ).(*types.Array); ok {
 					e.Typ = at.Elem()
 				}
 				v = e
@@ -725,7 +736,7 @@ func (x *Exec) load(st *State, addr Val, t types.Type) Val {
 		return st.loadElem(nil, a.Arr, a.Idx, a.Elem)
 	case GlobalPtr:
 		gt := a.G.Type().(*types.Pointer).Elem()
-		if su, ok := gt.Underlying().(*types.Struct); ok {
+		if su, ok := under(gt).(*types.Struct); ok {
 			return st.loadStruct(nil, st.globalRef(a.G), su, gt)
 		}
 		return st.loadAt(nil, "glob."+a.G.Name(), Term{S: "ref_nil", Sort: sRef}, gt, nil)
@@ -733,7 +744,7 @@ func (x *Exec) load(st *State, addr Val, t types.Type) Val {
 		// pointer value: load whole pointee
 		pt, ok := t, true
 		_ = ok
-		if su, ok := pt.Underlying().(*types.Struct); ok && !isTypeParam(pt) {
+		if su, ok := under(pt).(*types.Struct); ok && !isTypeParam(pt) {
 			return st.loadStruct(nil, a, su, pt)
 		}
 		return st.loadAt(nil, "box."+sanitize(pt.String()), a, pt, nil)
@@ -772,13 +783,13 @@ func (x *Exec) store(st *State, fr *Frame, addr Val, v Val, t types.Type, at ssa
 		st.storeElem(a.Arr, a.Idx, a.Elem, v)
 	case GlobalPtr:
 		gt := a.G.Type().(*types.Pointer).Elem()
-		if su, ok := gt.Underlying().(*types.Struct); ok {
+		if su, ok := under(gt).(*types.Struct); ok {
 			st.storeStruct(st.globalRef(a.G), su, gt, v)
 			return
 		}
 		st.storeAt("glob."+a.G.Name(), Term{S: "ref_nil", Sort: sRef}, gt, v, nil)
 	case Term:
-		if su, ok := t.Underlying().(*types.Struct); ok && !isTypeParam(t) {
+		if su, ok := under(t).(*types.Struct); ok && !isTypeParam(t) {
 			st.storeStruct(a, su, t, v)
 			return
 		}
@@ -793,8 +804,8 @@ func (x *Exec) checkFrameStore(st *State, key string, ref Term, at ssa.Instructi
 }
 
 func (x *Exec) fieldAddr(st *State, base Val, bt types.Type, field int) Val {
-	pt := bt.Underlying().(*types.Pointer).Elem()
-	su := pt.Underlying().(*types.Struct)
+	pt := under(bt).(*types.Pointer).Elem()
+	su := under(pt).(*types.Struct)
 	switch b := base.(type) {
 	case CellPtr:
 		return CellPtr{C: b.C, Path: append(append([]pathElem(nil), b.Path...), pathElem{field: field})}
@@ -860,14 +871,14 @@ func (x *Exec) toInt64(st *State, v Val, t types.Type) Term {
 func (x *Exec) indexAddr(st *State, fr *Frame, i *ssa.IndexAddr) Val {
 	base := x.val(st, fr, i.X)
 	idx := x.toInt64(st, x.val(st, fr, i.Index), i.Index.Type())
-	switch bt := i.X.Type().Underlying().(type) {
+	switch bt := under(i.X.Type()).(type) {
 	case *types.Slice:
 		s := st.asSlice(base, bt.Elem())
 		x.boundsCheck(st, fr, idx, s.Len, i.Pos(), "index in range of slice")
 		abs := st.def("ix", app(sBV(64), nil, "bvadd", s.Off, idx))
 		return ElemPtr{Arr: s.Arr, Idx: abs, Elem: bt.Elem()}
 	case *types.Pointer:
-		at := bt.Elem().Underlying().(*types.Array)
+		at := under(bt.Elem()).(*types.Array)
 		x.boundsCheck(st, fr, idx, bv64(uint64(at.Len())), i.Pos(), "index in range of array")
 		if ap, ok := base.(ArrPtr); ok {
 			return ElemPtr{Arr: ap.Ref, Idx: idx, Elem: at.Elem()}
@@ -883,7 +894,7 @@ func (x *Exec) indexAddr(st *State, fr *Frame, i *ssa.IndexAddr) Val {
 func (x *Exec) execIndex(st *State, fr *Frame, i *ssa.Index) Val {
 	base := x.val(st, fr, i.X)
 	idx := x.toInt64(st, x.val(st, fr, i.Index), i.Index.Type())
-	switch bt := i.X.Type().Underlying().(type) {
+	switch bt := under(i.X.Type()).(type) {
 	case *types.Array:
 		x.boundsCheck(st, fr, idx, bv64(uint64(bt.Len())), i.Pos(), "index in range of array")
 		t := tSelect(base.(Term), idx)
@@ -908,7 +919,7 @@ func (x *Exec) execSlice(st *State, fr *Frame, i *ssa.Slice) Val {
 		return &t
 	}
 	lo, hi, mx := get(i.Low), get(i.High), get(i.Max)
-	switch bt := i.X.Type().Underlying().(type) {
+	switch bt := under(i.X.Type()).(type) {
 	case *types.Slice:
 		s := st.asSlice(base, bt.Elem())
 		l := bv64(0)
@@ -928,7 +939,7 @@ func (x *Exec) execSlice(st *State, fr *Frame, i *ssa.Slice) Val {
 		return &SliceV{Arr: s.Arr, Off: st.def("off", app(sBV(64), nil, "bvadd", s.Off, l)), Len: st.def("len", app(sBV(64), nil, "bvsub", h, l)), Cap: st.def("cap", app(sBV(64), nil, "bvsub", c, l)), Elem: bt.Elem()}
 	case *types.Pointer:
 		// slicing an array through its address: tmp[:]
-		at := bt.Elem().Underlying().(*types.Array)
+		at := under(bt.Elem()).(*types.Array)
 		ap, ok := base.(ArrPtr)
 		if !ok {
 			panic(unsupported{"slice of an array that is not a local"})
@@ -968,7 +979,7 @@ func (x *Exec) execSlice(st *State, fr *Frame, i *ssa.Slice) Val {
 }
 
 func (x *Exec) execMakeSlice(st *State, fr *Frame, i *ssa.MakeSlice) Val {
-	et := i.Type().Underlying().(*types.Slice).Elem()
+	et := under(i.Type()).(*types.Slice).Elem()
 	n := x.toInt64(st, x.val(st, fr, i.Len), i.Len.Type())
 	c := x.toInt64(st, x.val(st, fr, i.Cap), i.Cap.Type())
 	goal := tAnd(app(sBool, nil, "bvsle", bv64(0), n), app(sBool, nil, "bvsle", n, c))
@@ -1005,7 +1016,7 @@ func (x *Exec) mapKeys(st *State, mt *types.Map) (has, val, ln string, ks, vs st
 	}
 	vs, ok = x.sortOf(mt.Elem())
 	if !ok {
-		if st, isStruct := mt.Elem().Underlying().(*types.Struct); isStruct && st.NumFields() == 0 {
+		if st, isStruct := under(mt.Elem()).(*types.Struct); isStruct && st.NumFields() == 0 {
 			vs = sBool
 		} else {
 			panic(unsupported{"map value type " + mt.Elem().String()})
@@ -1016,7 +1027,7 @@ func (x *Exec) mapKeys(st *State, mt *types.Map) (has, val, ln string, ks, vs st
 }
 
 func (x *Exec) execMakeMap(st *State, fr *Frame, i *ssa.MakeMap) Val {
-	mt := i.Type().Underlying().(*types.Map)
+	mt := under(i.Type()).(*types.Map)
 	has, _, ln, ks, _ := x.mapKeys(st, mt)
 	r := st.freshRef("map")
 	r.Typ = i.Type()
@@ -1027,7 +1038,7 @@ func (x *Exec) execMakeMap(st *State, fr *Frame, i *ssa.MakeMap) Val {
 }
 
 func (x *Exec) execMapUpdate(st *State, fr *Frame, i *ssa.MapUpdate) {
-	mt := i.Map.Type().Underlying().(*types.Map)
+	mt := under(i.Map.Type()).(*types.Map)
 	has, val, ln, ks, vs := x.mapKeys(st, mt)
 	m := st.asTerm(x.val(st, fr, i.Map), nil)
 	k := st.asTerm(x.val(st, fr, i.Key), mt.Key())
@@ -1047,7 +1058,7 @@ func (x *Exec) execMapUpdate(st *State, fr *Frame, i *ssa.MapUpdate) {
 }
 
 func (x *Exec) execLookup(st *State, fr *Frame, i *ssa.Lookup) Val {
-	mt, ok := i.X.Type().Underlying().(*types.Map)
+	mt, ok := under(i.X.Type()).(*types.Map)
 	if !ok {
 		panic(unsupported{"string lookup"})
 	}
@@ -1056,7 +1067,7 @@ func (x *Exec) execLookup(st *State, fr *Frame, i *ssa.Lookup) Val {
 	k := st.asTerm(x.val(st, fr, i.Index), mt.Key())
 	present := st.def("present", tSelect(st.heapRead(nil, has, sArr(ks, sBool), m, nil), k))
 	var v Val
-	if su, isStruct := mt.Elem().Underlying().(*types.Struct); isStruct && su.NumFields() == 0 {
+	if su, isStruct := under(mt.Elem()).(*types.Struct); isStruct && su.NumFields() == 0 {
 		v = &StructV{T: su, Named: mt.Elem()}
 	} else {
 		got := tSelect(st.heapRead(nil, val, sArr(ks, vs), m, nil), k)
@@ -1085,7 +1096,7 @@ func (x *Exec) typeTag(t types.Type) int {
 }
 
 func (x *Exec) makeInterface(st *State, v Val, t types.Type) Val {
-	if _, ok := t.Underlying().(*types.Interface); ok && !isTypeParam(t) {
+	if _, ok := under(t).(*types.Interface); ok && !isTypeParam(t) {
 		return v
 	}
 	tag := fmt.Sprint(x.typeTag(t))
@@ -1118,7 +1129,7 @@ func (x *Exec) makeInterface(st *State, v Val, t types.Type) Val {
 func (x *Exec) execTypeAssert(st *State, fr *Frame, i *ssa.TypeAssert) []*State {
 	v := st.asTerm(x.val(st, fr, i.X), nil)
 	at := i.AssertedType
-	if _, isIface := at.Underlying().(*types.Interface); isIface && !isTypeParam(at) {
+	if _, isIface := under(at).(*types.Interface); isIface && !isTypeParam(at) {
 		// interface-to-interface assertion: outcome unknown
 		if i.CommaOk {
 			ok := st.fresh("ifaceok", sBool, nil)
@@ -1375,7 +1386,7 @@ func (x *Exec) instrModsLoop(st *State, fr *Frame, in ssa.Instruction, ms *modse
 	case *ssa.MapUpdate:
 		if m, good := x.staticVal(st, fr, i.Map, allocs); good {
 			if mt, isT := m.(Term); isT {
-				mty := i.Map.Type().Underlying().(*types.Map)
+				mty := under(i.Map.Type()).(*types.Map)
 				*precise = append(*precise, func() { x.havocMapAt(st, mty, mt) })
 				return
 			}
@@ -1594,18 +1605,18 @@ func (x *Exec) addrMods(addr ssa.Value, ms *modset) {
 			ms.allocs[al] = true
 			return
 		}
-		pt := a.X.Type().Underlying().(*types.Pointer).Elem()
-		su := pt.Underlying().(*types.Struct)
+		pt := under(a.X.Type()).(*types.Pointer).Elem()
+		su := under(pt).(*types.Struct)
 		x.addFieldKeys(ms, structName(pt), su, a.Field)
 	case *ssa.IndexAddr:
-		if _, ok := a.X.Type().Underlying().(*types.Slice); ok {
+		if _, ok := under(a.X.Type()).(*types.Slice); ok {
 			ms.elems = true
 			return
 		}
 		x.addrMods(a.X, ms)
 	case *ssa.Global:
 		gt := a.Type().(*types.Pointer).Elem()
-		if su, ok := gt.Underlying().(*types.Struct); ok {
+		if su, ok := under(gt).(*types.Struct); ok {
 			for k := 0; k < su.NumFields(); k++ {
 				x.addFieldKeys(ms, structName(gt), su, k)
 			}
@@ -1614,8 +1625,8 @@ func (x *Exec) addrMods(addr ssa.Value, ms *modset) {
 		}
 	default:
 		// store through an arbitrary pointer value
-		if pt, ok := addr.Type().Underlying().(*types.Pointer); ok {
-			if su, ok := pt.Elem().Underlying().(*types.Struct); ok {
+		if pt, ok := under(addr.Type()).(*types.Pointer); ok {
+			if su, ok := under(pt.Elem()).(*types.Struct); ok {
 				for k := 0; k < su.NumFields(); k++ {
 					x.addFieldKeys(ms, structName(pt.Elem()), su, k)
 				}
@@ -1630,7 +1641,7 @@ func (x *Exec) addrMods(addr ssa.Value, ms *modset) {
 
 func (x *Exec) addFieldKeys(ms *modset, sn string, su *types.Struct, field int) {
 	f := su.Field(field)
-	if nested, ok := f.Type().Underlying().(*types.Struct); ok && !isTypeParam(f.Type()) {
+	if nested, ok := under(f.Type()).(*types.Struct); ok && !isTypeParam(f.Type()) {
 		for k := 0; k < nested.NumFields(); k++ {
 			x.addFieldKeys(ms, structName(f.Type()), nested, k)
 		}
